@@ -9,7 +9,8 @@
 (***************************************************************************)
 EXTENDS AioSync, P_Limiter, Json
 
-CONSTANTS Ops, MaxOps, MaxEnv, EnvKinds, Total0, Totals
+CONSTANTS Ops, MaxOps, MaxEnv, EnvKinds, Total0, Totals,
+          Retry      \* TRUE: a client whose scope absorbed its cancellation opens a fresh one and carries on
 
 VARIABLES L, E, hist, pst, pbad
 
@@ -119,10 +120,15 @@ ClientFin(t) ==
           /\ L' = r.lm
           /\ K' = SetTop(r.q, t, [Top(r.q, t) EXCEPT !.b = @ - bit])
           /\ Feed(Ev("rel", t, b, IF r.err THEN "error" ELSE "ok", r.lm))
-     ELSE LET x == ScopeExit(K, t, Reg(K, t)) IN
-          /\ K' = IF IsExc(x.reg) THEN Raise(x.q, t, x.reg) ELSE Ret(x.q, t)
-          /\ UNCHANGED <<L, pst, pbad>>
-  /\ UNCHANGED <<E, hist>>
+          /\ UNCHANGED E
+     ELSE LET x == ScopeExit(K, t, Reg(K, t))
+              again == Retry /\ x.caught IN
+          /\ K' = IF again THEN SetPc(ScopeEnter(x.q, t, FALSE, INF, FALSE, "task"), t, "choose")
+                  ELSE IF IsExc(x.reg) THEN Raise(x.q, t, x.reg) ELSE Ret(x.q, t)
+          /\ E' = IF again THEN [E EXCEPT !.scoped = @ \ {t}] ELSE E
+          /\ IF again THEN Feed([ev |-> "cdone", t |-> t]) ELSE UNCHANGED <<pst, pbad>>
+          /\ UNCHANGED L
+  /\ UNCHANGED hist
 
 LibStep(t) ==
   \/ /\ HelperEnabled(K, t)
